@@ -2,6 +2,7 @@
 //! Protocol: one case per stdin line: `<engine> <tok> <tok> ...`; a token is `-` (empty list) or a
 //! comma-separated list of decimal naturals. One output line per case in the same token syntax,
 //! or `PANIC <message>` when the implementation panicked.
+mod ctxutil;
 mod engines;
 mod util;
 
